@@ -3,7 +3,7 @@
 R-monitor (monitors.ActionMonitor) on the three entry points + trace laws (identity, composition,
 inverse, linearity, pixel bijection with unique ids, per-pixel Frobenius norm multiset).
 Integer lattice data: comparisons are exact (slack 1e-4 relative to scale). Variants: realistic image sizes, a reusable
-group-element buffer overwritten in place, int32 / NumPy / float64-under-x64 operands (exact signed permutation)."""
+group-element buffer overwritten in place, int32 / NumPy / float64-under-x64 operands (exact signed permutation); tensor orders up to 9 (d=2) / 7 (d=3) and the single-tensor entry tensor_times_gg."""
 from __future__ import annotations
 
 import itertools as it
